@@ -160,6 +160,10 @@ void build()
   NT("same text different template A {a}", "same text different template A {}", false, ("a"), (""), I, i);
   NT("same text different template A {b}", "same text different template A {}", false, ("b"), (""), I, i);
   NT("{a:>4}|{a2:>4}", "{:>4}|{:>4}", false, ("a", "a2"), (":>4", ":>4"), I2, j, j);
+  // a spec that itself begins with ':' (the colon as fill character): the name ends at the FIRST ':'
+  NT("balance {amount::>12.2f} EUR", "balance {::>12.2f} EUR", false, ("amount"), ("::>12.2f"), D, d);
+  NT("{id::<6}|{n::^9}|{plain}", "{::<6}|{::^9}|{}", false, ("id", "n", "plain"), ("::<6", "::^9", ""), I2; I; S, j, i, s);
+  NT("{s::>20} {t:-<8}", "{::>20} {:-<8}", false, ("s", "t"), ("::>20", ":-<8"), S; S2, s, s2);
   // values that the backend has to hex-escape, next to values with specs
   NT("sent {fix} with seq {seq:04d}", "sent {} with seq {:04d}", false, ("fix", "seq"), ("", ":04d"), HS; I2, s, j);
   NT("{k1}|{k2}|{k3}", "{}|{}|{}", false, ("k1", "k2", "k3"), ("", "", ""), HS; HS2; I, s, s2, i);
